@@ -219,11 +219,10 @@ class Evaluator(object):
                     out.append(-INF)
                     continue
                 best = -INF
-                for t1 in range(max(0, t - b), t - a + 1):
-                    v = q[t1]
-                    for t2 in range(t1 + 1, t + 1):
-                        v = min(v, p[t2])
-                    best = max(best, v)
+                m = min(p[t - a + 1:t + 1]) if a > 0 else INF        # min of p over (t1, t], t1 = t-a
+                for t1 in range(t - a, max(0, t - b) - 1, -1):
+                    best = max(best, min(q[t1], m))
+                    m = min(m, p[t1])
                 out.append(best)
             return out
         if k == 'until_b':
@@ -236,11 +235,10 @@ class Evaluator(object):
                     out.append(-INF)
                     continue
                 best = -INF
+                m = min(p[t:t + a]) if a > 0 else INF                # min of p over [t, t1), t1 = t+a
                 for t1 in range(t + a, min(n - 1, t + b) + 1):
-                    v = q[t1]
-                    for t2 in range(t, t1):
-                        v = min(v, p[t2])
-                    best = max(best, v)
+                    best = max(best, min(q[t1], m))
+                    m = min(m, p[t1])
                 out.append(best)
             return out
         raise KeyError('RefDiscrete: unknown operator %r' % (k,))
